@@ -634,11 +634,14 @@ class Interp:
                         self.fail_stack = list(self.call_rows)
                     err.passed_on = True
                     raise
-                if op in ("jf", "until", "for_init", "for_test", "for_next", "sel_init", "sel_test", "ifline"):
-                    raise Discard("handled_error_in_block_header")
+                # an error in the header of a block (IF / ELSEIF condition, CASE expression, FOR bounds, NEXT increment, loop
+                # condition): plain RESUME re-executes the clause; where RESUME NEXT continues is not defined by the property
+                header = op in ("jf", "until", "for_init", "for_test", "for_next", "sel_init", "sel_test", "ifline")
                 self.err_code = err.code
                 self.handled_errors += 1
                 if self.handler[0] == "next":
+                    if header:
+                        raise Discard("handled_error_in_block_header")
                     pc += 1
                     continue
                 # ON ERROR GOTO label: the handler runs in the main module, on the main module's variables
@@ -649,6 +652,8 @@ class Interp:
                 if action[0] == "resume":
                     continue
                 if action[0] == "next":
+                    if header:
+                        raise Discard("handled_error_in_block_header")
                     pc += 1
                     continue
                 if frame is not self.globals:
